@@ -58,6 +58,14 @@ def _probe_spec(rng, klass):
     spec['exchange'] = rng.choice(['Sandbox', 'Sandbox', OTHER_NAMES[0] if not spot else OTHER_NAMES[1]])
     if rng.random() < 0.35:
         spec['options'] = {'generate_equity_curve': True, 'generate_hyperparameters': True}
+    if rng.random() < 0.45:
+        # explicit hyperparameters that cover only PART of what the strategies declare (the rest are declared defaults)
+        for r in spec['routes']:
+            r['script']['hyperparameters'] = [{'name': 'qm', 'type': 'int', 'min': 1, 'max': 9, 'default': 3},
+                                              {'name': 'hold', 'type': 'int', 'min': 1, 'max': 50, 'default': rng.choice([5, 9])},
+                                              {'name': 'k', 'type': 'float', 'min': 0.0, 'max': 1.0, 'default': 0.25}]
+            r['script']['log_hp'] = True
+        spec['hyperparameters'] = rng.choice([{'qm': 2}, {'qm': 4, 'k': 0.5}, {}])
     return spec
 
 
